@@ -211,7 +211,13 @@ class State:
             elif 1 <= var_name.count(".") <= 3:
                 # not notified so far (unchanged since the trigger started, or not watched): its value as of
                 # this event, so that a burst of events is not evaluated on later values
-                notify_vars[var_name] = cls.get(var_name) if cls.exist(var_name) else None
+                if cls.exist(var_name):
+                    notify_vars[var_name] = cls.get(var_name)
+                elif len(parts) == 3 and cls.exist(f"{parts[0]}.{parts[1]}"):
+                    # no such attribute: None, unless it is a method of the value (eg, "d.e.upper() == 'ON'")
+                    notify_vars[var_name] = getattr(cls.get(f"{parts[0]}.{parts[1]}"), parts[2], None)
+                else:
+                    notify_vars[var_name] = None
         return notify_vars
 
     @classmethod
